@@ -164,8 +164,9 @@ class Engine:
 
     def let(self, W, env, name, term, ty, key=None):
         """bind python local `name` (or cell when key starts with '$')"""
-        W.append(("let", name, term))
-        self.bound.append(name)
+        if ty != "none":                 # a value specialised to None needs no binding
+            W.append(("let", name, term))
+            self.bound.append(name)
         env[key if key is not None else name] = ty
 
     def force(self, v, env, W, stem="x"):
@@ -576,6 +577,9 @@ class Engine:
             self.bound = saved_bound
         for n in muts:
             if ends2 and ends2[0].get(vis[n]) != env.get(vis[n]):
+                if env.get(vis[n]) == "list:?":        # an empty list literal: element type from the loop
+                    env[vis[n]] = ends2[0][vis[n]]
+                    continue
                 fail("loop changes the type of %s" % n, s)
         pat = acc[0] if len(acc) == 1 else "'(%s)" % ", ".join(acc)
         if may_fail:
